@@ -215,4 +215,29 @@ theorem finalIndex_eq_last_iff {a b s : Int} (hs : s ≠ 0) (hn : 0 < rangeLen a
       · exact absurd h h2
       · split <;> omega
 
+/-- membership in `range(a, b, s)`: exactly the `a + s*k` (`k = 0, 1, …`) before `stop` -/
+theorem mem_pyRange_iff {a b s : Int} (hs : s ≠ 0) (x : Int) :
+    x ∈ pyRange a b s ↔ ∃ k : Nat, x = a + s * (k : Int) ∧ (if 0 < s then x < b else b < x) := by
+  rw [pyRange_eq_map]
+  simp only [List.mem_map, List.mem_range]
+  rcases Int.lt_or_gt_of_ne hs with h | h
+  · have hn : ¬ 0 < s := by omega
+    simp only [hn, if_false]
+    constructor
+    · rintro ⟨k, hk, rfl⟩; exact ⟨k, rfl, (lt_rangeLen_iff_neg h k).mp hk⟩
+    · rintro ⟨k, rfl, hk⟩; exact ⟨k, (lt_rangeLen_iff_neg h k).mpr hk, rfl⟩
+  · simp only [h, if_true]
+    constructor
+    · rintro ⟨k, hk, rfl⟩; exact ⟨k, rfl, (lt_rangeLen_iff_pos h k).mp hk⟩
+    · rintro ⟨k, rfl, hk⟩; exact ⟨k, (lt_rangeLen_iff_pos h k).mpr hk, rfl⟩
+
+theorem le_floorCount_iff_pos {a b s : Int} (hs : 0 < s) (k : Int) : k ≤ floorCount a b s ↔ s * k ≤ b - a := by
+  unfold floorCount; exact le_floor_div_iff hs k
+
+theorem le_floorCount_iff_neg {a b s : Int} (hs : s < 0) (k : Int) : k ≤ floorCount a b s ↔ b - a ≤ s * k := by
+  unfold floorCount
+  rw [div_neg_neg, le_floor_div_iff (by omega : 0 < -s)]
+  have : -s * k = -(s * k) := Int.neg_mul _ _
+  omega
+
 end QP.C07
